@@ -71,11 +71,13 @@ type FuncExec struct {
 	entryObjs  map[ObjID]bool
 	resNames   []string
 	preAxioms  bool
+	selfVars   map[*ssa.FreeVar]bool
 	specErrs   []string
 	decEntry   []Term
 }
 
 type pathState struct {
+	callRes  map[string]Val
 	st       *State
 	loopSnap map[int]*State
 	variants map[*LoopInfo][]Term
@@ -90,6 +92,10 @@ func (ps *pathState) fork() *pathState {
 	}
 	for k, v := range ps.unrolls {
 		n.unrolls[k] = v
+	}
+	n.callRes = map[string]Val{}
+	for k, v := range ps.callRes {
+		n.callRes[k] = v
 	}
 	n.loopSnap = map[int]*State{}
 	for k, v := range ps.loopSnap {
@@ -207,6 +213,8 @@ func (fx *FuncExec) analyse() {
 				}
 			case *ssa.Panic:
 				k = "panic"
+			case *ssa.Return:
+				k = "return"
 			case *ssa.TypeAssert:
 				k = "typeassert"
 			case *ssa.FieldAddr, *ssa.UnOp, *ssa.Store:
@@ -218,6 +226,11 @@ func (fx *FuncExec) analyse() {
 			case *ssa.Call:
 				k = "call"
 				name := calleeName(x.Common(), fx.fn)
+				if _, ok := x.Common().Value.(*ssa.UnOp); ok {
+					if sc := fx.staticCallee(x.Common()); sc != nil && sc.Pkg == fx.fn.Pkg {
+						name = sc.RelString(fx.fn.Pkg.Pkg)
+					}
+				}
 				calleeCount[name]++
 				fx.callOrd[in] = fmt.Sprintf("%s#%d", name, calleeCount[name])
 			case *ssa.SliceToArrayPointer:
@@ -309,6 +322,7 @@ func (fx *FuncExec) run() {
 		fx.aborted = "no body"
 		return
 	}
+	fx.detectSelfBinding()
 	fx.analyse()
 	st := &State{c: fx.c, objs: map[ObjID]Val{}, regs: map[ssa.Value]Val{}}
 	vars := map[string]Val{}
@@ -331,6 +345,11 @@ func (fx *FuncExec) run() {
 	if fx.preAxioms {
 		if fx.con != nil {
 			fx.specErrs = append(fx.specErrs, fx.pk.axiomsInto(st, nil, fx.con.Uses)...)
+		}
+	}
+	for _, fv := range fn.FreeVars {
+		if v, ok := fx.freeVarValue(fv.Name(), st); ok {
+			vars[fv.Name()] = v
 		}
 	}
 	if fx.con != nil {
@@ -367,6 +386,61 @@ func (fx *FuncExec) noteSpecErr(env *SpecEnv, cl Clause) {
 	}
 }
 
+// detectSelfBinding: a captured function variable that is only ever assigned this very
+// closure (the `evaluate = func(...)` idiom for recursive closures) is a recursive call.
+func (fx *FuncExec) detectSelfBinding() {
+	fx.selfVars = map[*ssa.FreeVar]bool{}
+	parent := fx.fn.Parent()
+	if parent == nil {
+		return
+	}
+	// which parent value is bound to each free variable?
+	for _, b := range parent.Blocks {
+		for _, in := range b.Instrs {
+			mc, ok := in.(*ssa.MakeClosure)
+			if !ok || mc.Fn != ssa.Value(fx.fn) {
+				continue
+			}
+			for i, bnd := range mc.Bindings {
+				al, ok := bnd.(*ssa.Alloc)
+				if !ok || i >= len(fx.fn.FreeVars) {
+					continue
+				}
+				if _, isFn := al.Type().(*types.Pointer).Elem().Underlying().(*types.Signature); !isFn {
+					continue
+				}
+				okAll := true
+				for _, ref := range *al.Referrers() {
+					if st, isStore := ref.(*ssa.Store); isStore && st.Addr == ssa.Value(al) {
+						switch v := st.Val.(type) {
+						case *ssa.MakeClosure:
+							if v.Fn != ssa.Value(fx.fn) {
+								okAll = false
+							}
+						case *ssa.Const:
+							if !v.IsNil() {
+								okAll = false
+							}
+						default:
+							okAll = false
+						}
+					}
+				}
+				// the closure itself must not assign the variable
+				fv := fx.fn.FreeVars[i]
+				for _, ref := range *fv.Referrers() {
+					if st, isStore := ref.(*ssa.Store); isStore && st.Addr == ssa.Value(fv) {
+						okAll = false
+					}
+				}
+				if okAll {
+					fx.selfVars[fv] = true
+				}
+			}
+		}
+	}
+}
+
 // freeVarCells lets spec expressions name captured variables of a closure.
 func (fx *FuncExec) freeVarValue(name string, st *State) (Val, bool) {
 	for _, fv := range fx.fn.FreeVars {
@@ -395,7 +469,7 @@ func (fx *FuncExec) specEnv(ps *pathState, pos token.Pos, vars map[string]Val) *
 			}
 		}
 	}
-	return &SpecEnv{st: ps.st, old: fx.entry, vars: vars, fx: fx, pos: pos, loopSnap: ps.loopSnap}
+	return &SpecEnv{st: ps.st, old: fx.entry, vars: vars, fx: fx, pos: pos, loopSnap: ps.loopSnap, callRes: ps.callRes}
 }
 
 func (fx *FuncExec) loopVars(ps *pathState, li *LoopInfo) map[string]Val {
@@ -543,6 +617,7 @@ func (fx *FuncExec) execBlock(ps *pathState, blk *ssa.BasicBlock, pred *ssa.Basi
 			fx.execBlock(ps, blk.Succs[0], blk)
 			return
 		case *ssa.Return:
+			fx.siteAsserts(ps, fmt.Sprintf("return#%d", fx.siteOrd[in]), "before", nil)
 			fx.doReturn(ps, x)
 			return
 		case *ssa.Panic:
@@ -624,7 +699,12 @@ func (fx *FuncExec) frameCheck(ps *pathState) {
 	for k, v := range fx.paramEntry {
 		vars[k] = v
 	}
-	env := &SpecEnv{st: fx.entry, old: fx.entry, vars: vars, fx: nil}
+	for _, fv := range fx.fn.FreeVars {
+		if v, ok := fx.freeVarValue(fv.Name(), fx.entry); ok {
+			vars[fv.Name()] = v
+		}
+	}
+	env := &SpecEnv{st: fx.entry, old: fx.entry, vars: vars, fx: nil, lvFx: fx}
 	for _, cl := range fx.con.Modifies {
 		p, v, ok := env.lvalue(cl.Expr)
 		if !ok {
